@@ -352,7 +352,17 @@ func (r *storeRun) run() *h.Violation {
 					}
 					if m := r.model[o.MidHandle]; m != nil && r.handles[o.MidHandle] == nil {
 						// the program takes a handle while the poll is between its snapshot and its apply step
-						hd := r.st.Secret(o.MidHandle)
+						// from another goroutine under a watchdog (a store that holds its lock across
+						// the request would dead-lock here; that is C12's business, so just stop)
+						ch := make(chan setec.Secret, 1)
+						go func() { ch <- r.st.Secret(o.MidHandle) }()
+						var hd setec.Secret
+						select {
+						case hd = <-ch:
+						case <-time.After(5 * time.Second):
+							r.foreign = true
+							return
+						}
 						if hd == nil {
 							midViolation = r.viol("known-after-restart", "step %d: Secret(%q) is nil during a poll although the store knows it", i, o.MidHandle)
 							return
